@@ -108,7 +108,22 @@ class Prop(PropBase):
     def coq_check(self, case, obs):
         if obs.get('too_big'):
             return '2%nat'      # a list grew beyond what is worth printing: outside the compared fragment
-        return f'(check_obs {self.model_term(case, obs.get("loaded0", ()))} {L.coq_obs(obs)})'
+        term = f'(check_obs {self.model_term(case, obs.get("loaded0", ()))} {L.coq_obs(obs)})'
+        if case['kind'] == 'eval' and self.cpython_scope_quirk(obs):
+            # safety net for PEP 709 oddities the model's static exclusion does not anticipate: plain
+            # Python itself raises the unbound-local / unbound-cell error and pypyr agrees with it, so a
+            # model disagreement is the model's limit (verdict 2), never pypyr's; agreement still counts,
+            # and the statement-level monitors (pypyr == plain eval, no leak) apply regardless.
+            return f'(match {term} with 1 => 2 | n => n end)%nat'
+        return term
+
+    @staticmethod
+    def cpython_scope_quirk(obs):
+        for r, mine, want in zip(obs['results'], obs.get('plain_results', []), obs.get('plain_eval', [])):
+            if r[0] == 'err' and mine == want and (
+                    r[1] == 'UnboundLocalError' or (r[1] == 'NameError' and r[2].startswith('cannot access free variable'))):
+                return True
+        return False
 
     def coq_model_obs(self, case):
         # replays: the initial sys.modules is whatever this process has; recompute it the way run_impl does
